@@ -49,6 +49,11 @@ func poolPut(e *Exec, c *frame, a []Value) Value {
 	e.yield()
 	pv, isPtr := x.V.(*Value)
 	if isPtr && pv != nil {
+		if g, ok := e.pkgVar("emptyResult"); ok {
+			if er, ok := (*g).(*Value); ok && er == pv {
+				e.event("escape", "empty-result-pooled", "the shared immutable empty result is put into the pool of results (in "+callerName(c)+")")
+			}
+		}
 		if w, dup := e.inPool[pv]; dup {
 			e.event("double-put", "double-put", fmt.Sprintf("%s put into its pool twice without a Get in between (first put at %s, second in %s)", x.T, w, callerName(c)))
 			return nil
@@ -288,4 +293,16 @@ func (e *Exec) checkPoolInv(roots []Value) {
 	for _, r := range roots {
 		w.walk(r)
 	}
+}
+
+// pkgVar returns the cell of a package-level variable of package validate, if it exists.
+func (e *Exec) pkgVar(name string) (*Value, bool) {
+	for _, ip := range e.run.initPkgs {
+		if ip.Pkg.Path() == "github.com/go-openapi/validate" {
+			if g := ip.Var(name); g != nil {
+				return e.global(g), true
+			}
+		}
+	}
+	return nil, false
 }
